@@ -18,6 +18,21 @@ pub enum Tail {
     Loop(String, Vec<String>),
 }
 
+fn last_mut_var(i: &ExprIf) -> Option<String> {
+    if let Expr::Let(l) = &*i.cond {
+        if ts(&l.expr).replace(' ', "") == "self.indents.last_mut()" {
+            if let Pat::TupleStruct(tsp) = &*l.pat {
+                if path_str(&tsp.path) == "Some" {
+                    if let Pat::Ident(v) = &tsp.elems[0] {
+                        return Some(v.ident.to_string());
+                    }
+                }
+            }
+        }
+    }
+    None
+}
+
 fn always_returns_block(b: &Block) -> bool {
     b.stmts.last().map_or(false, always_returns_stmt)
 }
@@ -110,6 +125,9 @@ impl Cx {
                         Some(Bnd::Val { term, .. }) => args.push(paren(term)),
                         _ => return Err(format!("loop variable {} is not a value", x)),
                     }
+                }
+                if let SelfKind::MutVal(_) = self.cur.self_kind {
+                    args.push(paren(&self.self_var));
                 }
                 Ok((Code::Raw(format!("{} dbg fuel' {}", name, args.join(" "))), Ty::Unit))
             }
@@ -275,6 +293,33 @@ impl Cx {
                         let (k, ty, d) = self.stmts(rest, tail)?;
                         Ok((wrap(pres, k), ty, d))
                     }
+                    Expr::If(i) if last_mut_var(i).is_some() => {
+                        // `if let Some(x) = self.indents.last_mut() { x.f = ..; }`: the last element is updated in place
+                        let var = last_mut_var(i).unwrap();
+                        if i.else_branch.is_some() {
+                            return Err("last_mut with an else branch".into());
+                        }
+                        let el = self.gensym("e_");
+                        let saved_self = self.self_var.clone();
+                        let (c, _, _) = self.branch(|cx| {
+                            cx.push();
+                            cx.declare(&var, Bnd::Val { term: el.clone(), ty: Ty::IState });
+                            let r = cx.stmts(&i.then_branch.stmts, &Tail::Join(vec![var.clone()]));
+                            cx.pop();
+                            if cx.self_var != saved_self {
+                                return Err("last_mut block touches other state".to_string());
+                            }
+                            r
+                        })?;
+                        // Join over a MutVal self returns (element, self): keep the element
+                        let body = c.as_pure().ok_or("last_mut block with effects")?;
+                        let n = self.gensym("v_self_");
+                        let mut pres = vec![Pre::Let(n.clone(), format!("set_g_ind (upd_last (fun {} => fst ({})) (g_ind {})) {}", el, body, self.self_var, self.self_var))];
+                        self.self_var = n;
+                        let (k, ty, d) = self.stmts(rest, tail)?;
+                        let pres2 = std::mem::take(&mut pres);
+                        Ok((wrap(pres2, k), ty, d))
+                    }
                     Expr::If(_) | Expr::Match(_) | Expr::Block(_) => {
                         // statement position
                         if always_returns_expr(e) {
@@ -306,6 +351,54 @@ impl Cx {
                         Ok((code, ty, d))
                     }
                     Expr::While(w) => self.while_let(w, rest, tail),
+                    Expr::ForLoop(f) if matches!(self.cur.self_kind, SelfKind::MutVal(Ty::Writer)) => {
+                        // a loop that only appends to the sink: a pure fold over the list / the range
+                        let mut pres = vec![];
+                        let mut it = &*f.expr;
+                        while let Expr::Reference(r) = it {
+                            it = &*r.expr;
+                        }
+                        let (l, elem_ty) = match it {
+                            Expr::Range(r) => {
+                                let lo = r.start.as_ref().map(|x| ts(x)).unwrap_or_default();
+                                if lo != "0" || !matches!(r.limits, RangeLimits::HalfOpen(_)) {
+                                    return Err("for loop over a range not starting at 0".into());
+                                }
+                                let (h, _) = self.expr(r.end.as_ref().ok_or("open range")?, &mut pres)?;
+                                (format!("seq 0 {}", paren(&h)), Ty::Nat)
+                            }
+                            other => {
+                                let (l, lty) = self.expr(other, &mut pres)?;
+                                if lty != Ty::ListIState {
+                                    return Err(format!("for loop over {:?}", lty));
+                                }
+                                (l, Ty::IState)
+                            }
+                        };
+                        let vars = self.outer_assigned(assigned_in(&[&f.body], &[]));
+                        if !vars.is_empty() {
+                            return Err("for loop with loop-carried locals".into());
+                        }
+                        let acc = self.gensym("s_");
+                        let mut xname = String::new();
+                        let (c, _, d) = self.branch(|cx| {
+                            cx.self_var = acc.clone();
+                            cx.push();
+                            xname = cx.pat(&f.pat, &elem_ty)?;
+                            let r = cx.stmts(&f.body.stmts, &Tail::Join(vec![]));
+                            cx.pop();
+                            r
+                        })?;
+                        if d {
+                            return Err("return inside a for loop".into());
+                        }
+                        let body = c.as_pure().ok_or("for loop body with effects")?;
+                        let n = self.gensym("v_self_");
+                        pres.push(Pre::Let(n.clone(), format!("fold_left (fun {} {} => {}) ({}) {}", acc, xname, body, l, self.self_var)));
+                        self.self_var = n;
+                        let (k, ty, d) = self.stmts(rest, tail)?;
+                        Ok((wrap(pres, k), ty, d))
+                    }
                     Expr::ForLoop(f) => {
                         let mut pres = vec![];
                         let (l, lty) = self.expr(&f.expr, &mut pres)?;
@@ -565,12 +658,13 @@ impl Cx {
     /// `while let PAT = PLACE-EXPR { body }; rest` lifted to a fuelled Fixpoint; the rest of the
     /// function is the loop's exit branch
     fn while_let(&mut self, w: &ExprWhile, rest: &[Stmt], tail: &Tail) -> R<(Code, Ty, bool)> {
-        let l = match &*w.cond {
-            Expr::Let(l) => l,
-            _ => return Err("while loop without `let` condition".into()),
+        let let_cond = match &*w.cond {
+            Expr::Let(l) => Some(l),
+            _ => None,
         };
         let carried = self.outer_assigned(assigned_in(&[&w.body], &[]));
-        if matches!(self.cur.self_kind, SelfKind::MutVal(_)) {
+        let mutself = matches!(self.cur.self_kind, SelfKind::MutVal(_));
+        if mutself && !matches!(self.cur.self_kind, SelfKind::MutVal(Ty::Writer)) {
             return Err("while loop in a &mut self value method".into());
         }
         // parameters: every visible value variable (carried ones are updated on the recursive call)
@@ -580,6 +674,7 @@ impl Cx {
         }).collect();
         let lname = format!("{}_loop{}", self.cur.coq, self.lifted.len() + 1);
         let saved_scopes = self.scopes.clone();
+        let saved_self = self.self_var.clone();
         // inside the fixpoint every visible variable is a parameter with a stable name
         let mut params = vec![];
         for (k, _, ty) in &vis {
@@ -587,30 +682,39 @@ impl Cx {
             self.assign(k, Bnd::Val { term: pn.clone(), ty: ty.clone() })?;
             params.push((pn, ty.clone()));
         }
+        if mutself {
+            self.self_var = "p_self".into();
+            params.push(("p_self".into(), Ty::Writer));
+        }
         let mut pres = vec![];
-        let (s, sty) = self.expr(&l.expr, &mut pres)?;
+        let (s, sty) = match let_cond {
+            Some(l) => self.expr(&l.expr, &mut pres)?,
+            None => self.expr(&w.cond, &mut pres)?,
+        };
+        if let_cond.is_none() && (sty != Ty::Bool || !pres.is_empty()) {
+            return Err("while condition is not a pure boolean".into());
+        }
         let mut pat = String::new();
         let _ = &carried;
         let loop_tail = Tail::Loop(lname.clone(), vis.iter().map(|(k, _, _)| k.clone()).collect());
         let body = self.branch(|cx| {
             cx.push();
-            pat = cx.pat(&l.pat, &sty)?;
+            if let Some(l) = let_cond {
+                pat = cx.pat(&l.pat, &sty)?;
+            }
             let r = cx.stmts(&w.body.stmts, &loop_tail);
             cx.pop();
             r
         })?;
         let exit = self.branch(|cx| cx.stmts(rest, tail))?;
         let other = if pat.starts_with("Some") { "None" } else { "_" };
+        let fueled = Code::Match("fuel".into(), vec![("O".into(), Code::Raw("diverge".into())), ("S fuel'".into(), body.0.clone())]);
         // the fuel is consumed before any effect of an iteration: when evaluating the loop condition reads the
         // arena the fuel test comes first, otherwise it comes after the (pure) condition said "continue"
-        let fix_body = if pres.is_empty() {
-            Code::Match(
-                s,
-                vec![
-                    (pat, Code::Match("fuel".into(), vec![("O".into(), Code::Raw("diverge".into())), ("S fuel'".into(), body.0)])),
-                    (other.into(), exit.0),
-                ],
-            )
+        let fix_body = if let_cond.is_none() {
+            Code::If(s, Box::new(fueled), Box::new(exit.0))
+        } else if pres.is_empty() {
+            Code::Match(s, vec![(pat, fueled), (other.into(), exit.0)])
         } else {
             Code::Match(
                 "fuel".into(),
@@ -624,8 +728,19 @@ impl Cx {
         };
         self.lifted.push(format!("Fixpoint {} (dbg : bool) (fuel : nat) {} {{struct fuel}} : M {} :=\n{}.\n", lname, plist, rty.coq(), fix_body.print(2)));
         self.scopes = saved_scopes;
+        self.self_var = saved_self;
+        let mut args: Vec<String> = vis.iter().map(|(_, t, _)| paren(t)).collect();
+        if mutself {
+            args.push(paren(&self.self_var));
+        }
+        // fuel: a loop that consumes a string is bounded by its length, a walk over links by the number of slots
+        let str_var = vis.iter().find(|(k, _, ty)| *ty == Ty::Str && carried.contains(k));
+        if let Some((_, t, _)) = str_var {
+            let call = Code::Raw(format!("{} dbg (S (List.length {})) {}", lname, paren(t), args.join(" ")));
+            return Ok((call, exit.1, exit.2));
+        }
         let a = self.gensym("a_");
-        let call = Code::Raw(format!("{} dbg (chain_fuel {}) {}", lname, a, vis.iter().map(|(_, t, _)| paren(t)).collect::<Vec<_>>().join(" ")));
+        let call = Code::Raw(format!("{} dbg (chain_fuel {}) {}", lname, a, args.join(" ")));
         Ok((Code::bind(&a, Code::Raw("get_arena".into()), call), exit.1, exit.2))
     }
 
@@ -648,6 +763,15 @@ impl Cx {
                     pres.extend(ip);
                     pres.push(Pre::Seq(Code::If(c, Box::new(Code::Ret("tt".into())), Box::new(Code::Panic(code)))));
                 }
+                Ok(false)
+            }
+            "debug_assert_ne" => {
+                let args = mac.parse_body_with(parser).map_err(|e| e.to_string())?;
+                let mut ip = vec![];
+                let (a, aty) = self.expr(&args[0], &mut ip)?;
+                let (b, bty) = self.expr(&args[1], &mut ip)?;
+                let t = eqb(&unify(&aty, &bty), &a, &b)?;
+                pres.push(Pre::Seq(Code::Raw(format!("when_dbg dbg {}", wrap(ip, Code::Raw(format!("dassert true (negb ({}))", t))).print_inline(2)))));
                 Ok(false)
             }
             "debug_assert_eq" | "assert_eq" => {
